@@ -1,13 +1,14 @@
 #!/venv/bin/python
-"""import_seeded.py CNN : import /var/tmp/mut_out/CNN/m{k}.* as /verif/seeded/CNN-m{k}/, confirm (demo before/after, baseline), run the check."""
+"""import_seeded.py CNN [srcdir [tag]] : import /var/tmp/mut_out/CNN/m{k}.* as /verif/seeded/CNN-m{k}/, confirm (demo before/after, baseline), run the check."""
 import json, os, shutil, subprocess, sys
 sys.path.insert(0, os.path.dirname(os.path.abspath(__file__)))
 import seeded
 pid = sys.argv[1]
-src = '/var/tmp/mut_out/%s' % pid
+src = sys.argv[2] if len(sys.argv) > 2 else '/var/tmp/mut_out/%s' % pid
+tag = sys.argv[3] if len(sys.argv) > 3 else 'm'
 for k in (1, 2, 3, 4, 5):
     if not os.path.exists('%s/m%d.diff' % (src, k)): continue
-    sid = '%s-m%d' % (pid, k)
+    sid = '%s-%s%d' % (pid, tag, k)
     d = os.path.join('/verif/seeded', sid); os.makedirs(d, exist_ok=True)
     shutil.copy('%s/m%d.diff' % (src, k), d + '/patch.diff')
     shutil.copy('%s/m%d_demo.py' % (src, k), d + '/demo.py')
@@ -29,5 +30,6 @@ for k in (1, 2, 3, 4, 5):
     json.dump(meta, open(d + '/meta.json', 'w'), indent=1)
     res = seeded.check(sid)
     meta['quick_check_result'] = {p: {'caught': v['rc'] == 1, 'rc': v['rc'], 'sigs': v['sigs'][:3]} for p, v in res.items()}
+    meta['first_quick_check_result'] = meta['quick_check_result']
     json.dump(meta, open(d + '/meta.json', 'w'), indent=1)
     print(sid, 'confirmed;', ' '.join('%s:%s' % (p, 'CAUGHT' if v['rc'] == 1 else 'MISSED rc=%d' % v['rc']) for p, v in res.items()), flush=True)
